@@ -123,6 +123,23 @@ def realise(clsname, dts, t0, reuse=False):
     return recs
 
 
+def propagator_points(clsname):
+    """timemodel.propagator(z) of the real class at dyadic real z, identified with rationals (den <= 10^5)"""
+    out = []
+    solver = getattr(tnum, clsname)(None, None)
+    for z in (0.5, -0.5, -1.0, 0.25, -2.0):
+        try:
+            v = solver.propagator(z)
+            v = float(np.real(np.ravel(np.asarray(v))[0]))
+        except Exception:
+            return []
+        q = Fraction(v).limit_denominator(10 ** 5)
+        if abs(Fraction(v) - q) > 16 * Fraction(1, 2 ** 52) * max(1, abs(q)) or not core.fits(q):
+            return []
+        out.append([core.rat(Fraction(z)), core.rat(q)])
+    return out
+
+
 def stability_poly(clsname):
     cls = getattr(tnum, clsname)
     disc = PolyDisc()
@@ -160,6 +177,7 @@ def run(tier):
         if cn not in known:
             rep.extra.setdefault("classes_without_nominal_order", []).append(cn)
             continue
+        prop_pts = propagator_points(cn)
         try:
             poly = stability_poly(cn)
         except Exception as ex:
@@ -170,11 +188,12 @@ def run(tier):
                 rs = realise(cn, dts, t0, reuse=reuse)
             except Exception as ex:     # the code inspected a value or raised: an observation, judged as not-an-RK-step
                 rs = [dict(cls=cn, A=[[[0, 1]]], b=[[0, 1]], cpres=[[0, 1]], tend=[0, 1], affine=False, exact=False,
-                           poly=[], dts=[str(d) for d in dts], cell=0, raised=str(ex)[:100], reuse=bool(reuse))]
+                           poly=[], prop=[], dts=[str(d) for d in dts], cell=0, raised=str(ex)[:100], reuse=bool(reuse))]
             for r in rs:
                 rid += 1
                 r["id"] = rid
                 r["poly"] = poly if (len(dts) == 1 and dts[0] == 1.0) else []
+                r["prop"] = prop_pts if (len(dts) == 1 and dts[0] == 1.0 and not reuse) else []
                 recs.append(r)
                 rep.evaluations += 1
                 rep.nontrivial.add((cn, tuple(dts), t0, reuse))
@@ -190,6 +209,9 @@ def run(tier):
     byid = {r["id"]: r for r in recs}
     for b in (core.read_ndjson(jout) if os.path.exists(jout) else []):
         r = byid[b["id"]]
+        if b["clause"] == "DRIFT_propagator":
+            rep.drift.append("class %s: propagator(z) is not the stability polynomial of the tableau its step realises" % r["cls"])
+            continue
         if b["clause"].startswith("DRIFT"):
             rep.drift.append("class %s realises a tableau different from the transcription in RK.tla (dts=%s)" % (r["cls"], r["dts"]))
             continue
